@@ -561,6 +561,7 @@ Builtin(N, st, name, a, multi, ln) ==
            (IF a1[1] # "s" THEN Fault(st, ln) ELSE Raise(st, a1))
       [] name = "snap" -> RetV(st, <<>>, multi)      \* harness snapshot: no effect on the semantics
       [] name = "gcancel" -> RetV(st, <<>>, multi)   \* the host cancels the context: the uncancelled semantics just goes on
+      [] name = "gswap" -> RetV(st, <<>>, multi)     \* the host replaces the attached context: no effect on the semantics
       [] name = "dbg.getinfo" ->
            (* fields judged by C17: currentline, linedefined, lastlinedefined *)
            (LET MkInfo(cur, fnref) ==
@@ -822,7 +823,7 @@ Step(N, st) ==
 (* ---- initial state ------------------------------------------------------------------------------- *)
 GlobalNames == <<"emit", "type", "tostring", "tonumber", "select", "unpack", "rawget", "rawset", "rawequal",
                  "next", "pairs", "ipairs", "setmetatable", "getmetatable", "pcall", "xpcall", "error", "assert",
-                 "getfenv", "setfenv", "newproxy", "gret", "gcall", "gerr", "gpanic", "snap", "gcancel">>
+                 "getfenv", "setfenv", "newproxy", "gret", "gcall", "gerr", "gpanic", "snap", "gcancel", "gswap">>
 CoNames == <<"create", "resume", "yield", "status", "wrap", "running">>
 DbgNames == <<"getinfo", "getlocal", "setlocal", "getupvalue", "setupvalue">>
 StrNames == <<"sub", "len", "byte", "rep">>
